@@ -280,6 +280,63 @@ def run(ctx):
             if mf != real["fails"] or me != real["errs"] or ans["ran"] != real["ran"]:
                 ctx.drift("channel.parse", "%s: model (%r,%r..) real (%r,%r..)" % (
                     label, ans["ran"], mf[:3], real["ran"], real["fails"][:3]), case)
+    stdout_cases(ctx)
+
+
+STDOUT_LINES = [b"  Ran 3 tests with 0 failures\n", b".\n", b"....\n", b"..\r\n", b"...\r", b"." * 72 + b" done\n",
+                b"." * 200 + b"|\n", b" ...\n", b"... \n", b"\n", b"x" * 70000 + b"\n", b"\xff\xfe binary\n",
+                b"." * 40 + b" " + b"." * 40 + b"!\n", b"no newline at the end", b"1 0 0\n"]
+
+
+def stdout_cases(ctx):
+    """whatever the child writes to stdout: the parent terminates, records the child's report, and the
+    collector keeps every line that is not a keep-alive dots line (tie to Model/Sched's `childLine`)"""
+    import re
+    import subprocess
+    import json as _json
+    import os as _os
+    from harness import common as _common
+    rng = ctx.rng
+    n = 10 if ctx.quick() else 120
+    dots = re.compile(br"\.+(\r\n?|\n)")
+    for i in range(n):
+        collector = ["deferred", "keepalive", "immediate"][i % 3]
+        lines = [rng.choice(STDOUT_LINES) for _ in range(rng.choice([1, 3, 8]))]
+        if i < len(STDOUT_LINES):
+            lines.append(STDOUT_LINES[i])
+        # only the last line may lack its newline
+        lines = [ln if ln.endswith((b"\n", b"\r")) or k == len(lines) - 1 else ln + b"\n" for k, ln in enumerate(lines)]
+        data = b"".join(lines)
+        case = {"collector": collector, "stdout": list(data), "stderr": list(b"3 0 0\n")}
+        ctx.count(("stdout", collector, data[:300], len(data)), sample=None)
+        ctx.bump("stdout:" + collector)
+        try:
+            pr = subprocess.run([_common.PY, _os.path.join(_common.VERIF, "harness", "channel_worker.py")],
+                                input=_json.dumps(case).encode(), stdout=subprocess.PIPE, stderr=subprocess.PIPE, timeout=40)
+        except subprocess.TimeoutExpired:
+            ctx.violation("the parent did not terminate within 40 s on child stdout %r (collector %s)" % (data[:120], collector),
+                          {"collector": collector, "stdout": list(data[:4000])}, signature="hang:stdout")
+            continue
+        try:
+            res = _json.loads(pr.stdout.decode().strip().split("\n")[-1])
+        except Exception:  # noqa: BLE001
+            ctx.drift("channel.stdout", "worker failed: %s" % pr.stderr.decode()[-400:], {"case": case["collector"]})
+            continue
+        rep = {"collector": collector, "stdout": list(data[:4000]), "result": {k: v for k, v in res.items() if k not in ("kept", "printed")}}
+        if res["exc"] or not res["done"] or res["ran"] != 3 or res["errors"]:
+            ctx.violation("child stdout %r (collector %s): parent recorded ran=%r errors=%r exception=%r" % (
+                data[:80], collector, res["ran"], res["errors"], res["exc"]), rep, signature="channel:stdout")
+            continue
+        if collector in ("deferred", "keepalive"):
+            # readline() splits at \n only
+            real_lines = data.split(b"\n")
+            real_lines = [x + b"\n" for x in real_lines[:-1]] + ([real_lines[-1]] if real_lines[-1] else [])
+            want = [list(x) for x in real_lines if not dots.fullmatch(x)]
+            if res["kept"] != want:
+                ctx.violation("collector %s kept %d lines of the child's output, %d are not keep-alive dots lines: "
+                              "first difference %r" % (collector, len(res["kept"]), len(want),
+                                                       next((bytes(a)[:60] for a, b in zip(want + [[]], res["kept"] + [[]]) if a != b), b"")),
+                              rep, signature="channel:collector-lines")
 
 
 def probe_spoof(ctx):
